@@ -10,7 +10,7 @@ func nestedWeights() map[string]int {
 		"m.set": 18, "m.remove": 9, "m.get": 2,
 		"settype": 3, "popall": 2, "reget": 6, "count": 1, "new": 1,
 		"a.fill": 3, "m.fill": 3, "a.drain": 3, "m.drain": 3,
-		"commit": 4, "dropcache": 1, "reopen": 2,
+		"commit": 4, "dropcache": 1, "reopen": 2, "probe.removed": 2,
 	}
 }
 
